@@ -67,6 +67,24 @@ func NewSrv(fwdRefs bool, vrfs []string, opts ...server.ServerOpt) *Srv {
 	return &Srv{S: s, barrier: 1 << 62}
 }
 
+// NewSrvInjected is NewSrv for a server that already "knows" an election id although no
+// session announced it: built with server.NewFake and FakeServer.InjectElectionID (the public
+// way to start a server with a learnt id; there is no primary then).
+func NewSrvInjected(fwdRefs bool, vrfs []string, id *spb.Uint128, opts ...server.ServerOpt) *Srv {
+	if !fwdRefs {
+		opts = append(opts, server.WithNoRIBForwardReferences())
+	}
+	if len(vrfs) > 0 {
+		opts = append(opts, server.WithVRFs(vrfs))
+	}
+	f, err := server.NewFake(opts...)
+	if err != nil {
+		panic(err)
+	}
+	f.InjectElectionID(id)
+	return &Srv{S: f.Server, barrier: 1 << 62}
+}
+
 type recvItem struct {
 	msg *spb.ModifyRequest
 	err error
